@@ -162,8 +162,9 @@ u.extract(F, "impl FunctionCompiler<'_>::fn compile_expr_with_args", key='while_
                     sig='''fn while_loop(&mut self, expr: ExprIdx, condition: Option<ExprIdx>, body: ExprIdx,
                           header_block: Block, body_block: Block, exit_block: Block)''',
                     why='the Expr::While arm of compile_expr_with_args from the registration of the loop label to the sealing of the header, lifted into a method'),
-          inserts=[('self.compile_expr(body);', 'before', '''
-                // ghost: inside the body `break` / `continue` may name this loop
+          inserts=[("// don't seal the header yet", 'after', '''
+                // ghost: inside the loop -- its condition (hir::lower_while registers the label
+                // before it lowers the condition) and its body -- `break` / `continue` may name it
                 let ghost live0 = self.live@; let ghost s1 = self.defer_stack@;
                 proof {
                     if scope_id is Some { self.live = Ghost(self.live@.insert(scope_id->0)); }
@@ -285,19 +286,12 @@ u.extract(F, "impl FunctionCompiler<'_>::fn compile_expr_with_args", key='block_
 
 MUTANTS = [
     # the two repaired defects, re-introduced
-    (F, '''                self.defer_stack.push(DeferFrame {
-                    id: scope_id,
-                    defers: Vec::new(),
-                });
-
-                self.compile_expr(body);
-
-                self.defer_stack.pop();
-''', '''                self.compile_expr(body);
-''', 'violation'),
+    (F, "                self.defer_stack.push(DeferFrame {\n                    id: scope_id,\n                    defers: Vec::new(),\n                });\n\n                self.builder.ins().jump(header_block, &[]);\n                self.builder.switch_to_block(header_block);\n                // don't seal the header yet\n\n                if let Some(condition) =\n                    condition.and_then(|condition| self.compile_expr(condition))\n                {\n                    self.builder\n                        .ins()\n                        .brif(condition, body_block, &[], exit_block, &[]);\n                } else {\n                    self.builder.ins().jump(body_block, &[]);\n                }\n\n                self.builder.switch_to_block(body_block);\n                self.builder.seal_block(body_block);\n\n                self.compile_expr(body);\n\n                self.defer_stack.pop();\n\n", "                self.builder.ins().jump(header_block, &[]);\n                self.builder.switch_to_block(header_block);\n                // don't seal the header yet\n\n                if let Some(condition) =\n                    condition.and_then(|condition| self.compile_expr(condition))\n                {\n                    self.builder\n                        .ins()\n                        .brif(condition, body_block, &[], exit_block, &[]);\n                } else {\n                    self.builder.ins().jump(body_block, &[]);\n                }\n\n                self.builder.switch_to_block(body_block);\n                self.builder.seal_block(body_block);\n\n                self.compile_expr(body);\n\n", 'violation'),
     (F, '''                // the blocks inside the loop are being left, so their defers have to run
                 self.run_defers_to_label(label);
 ''', '', 'violation'),
+    # the fourth repaired defect, re-introduced: the loop's frame is pushed after its condition was compiled
+    (F, "                self.defer_stack.push(DeferFrame {\n                    id: scope_id,\n                    defers: Vec::new(),\n                });\n\n                self.builder.ins().jump(header_block, &[]);\n                self.builder.switch_to_block(header_block);\n                // don't seal the header yet\n\n                if let Some(condition) =\n                    condition.and_then(|condition| self.compile_expr(condition))\n                {\n                    self.builder\n                        .ins()\n                        .brif(condition, body_block, &[], exit_block, &[]);\n                } else {\n                    self.builder.ins().jump(body_block, &[]);\n                }\n\n                self.builder.switch_to_block(body_block);\n                self.builder.seal_block(body_block);\n\n                self.compile_expr(body);\n", "                self.builder.ins().jump(header_block, &[]);\n                self.builder.switch_to_block(header_block);\n                // don't seal the header yet\n\n                if let Some(condition) =\n                    condition.and_then(|condition| self.compile_expr(condition))\n                {\n                    self.builder\n                        .ins()\n                        .brif(condition, body_block, &[], exit_block, &[]);\n                } else {\n                    self.builder.ins().jump(body_block, &[]);\n                }\n\n                self.builder.switch_to_block(body_block);\n                self.builder.seal_block(body_block);\n\n                self.defer_stack.push(DeferFrame {\n                    id: scope_id,\n                    defers: Vec::new(),\n                });\n\n                self.compile_expr(body);\n", 'violation'),
     # others
     (F, '            for defer in frame.defers.iter().rev() {\n                self.compile_expr(*defer);\n            }\n\n            used_frames.push', '            for defer in frame.defers.iter() {\n                self.compile_expr(*defer);\n            }\n\n            used_frames.push', 'violation'),
     (F, '''            if frame.id == Some(label) {
